@@ -413,11 +413,19 @@ def send_tx(
         if total_amount >= amount_to_send:
             break
 
-    recipient_scriptpubkey = bits.script.scriptpubkey(recipient_addr)
+    def to_scriptpubkey(data: bytes) -> bytes:
+        # same dispatch as for sender_addr above: pubkey, base58check or segwit address, else raw scriptpubkey
+        if (
+            bits.is_point(data)
+            or bits.base58.is_base58check(data)
+            or bits.is_segwit_addr(data)
+        ):
+            return bits.script.scriptpubkey(data)
+        return data
+
+    recipient_scriptpubkey = to_scriptpubkey(recipient_addr)
     change_scriptpubkey = (
-        bits.script.scriptpubkey(change_addr)
-        if change_addr
-        else bits.script.scriptpubkey(sender_addr)
+        to_scriptpubkey(change_addr) if change_addr else to_scriptpubkey(sender_addr)
     )
     txouts = [
         txout(int(amount_to_send - miner_fee), recipient_scriptpubkey),
